@@ -204,6 +204,25 @@ def _check_pair(ctx, src, dst, spos, dpos, rng, tier, same_mesh):
                     if rc.shape != (n_dst,) or not np.allclose(rc, 7.25, rtol=1e-12, atol=1e-12):
                         ctx.fail("idw_constant_reproduced", "inverse_distance_weighted", scen, coord, "a constant field is not reproduced", inp,
                                  rc.ravel()[:6].tolist(), 7.25)
+                    # integer-valued variables (counts, codes, masks): the same convex combination of the values, not truncated
+                    try:
+                        ivals = np.array([rng.randint(-9, 9) for _ in range(n_src)], dtype=np.int64)
+                        ri = np.asarray(ux.UxDataArray(ivals.copy(), dims=[KIND_DIM[kind]], uxgrid=gs, name="i").remap.inverse_distance_weighted(
+                            gd, remap_to=remap_to, coord_type=coord, power=power, k=k).values, dtype=float)
+                        rf = np.asarray(ux.UxDataArray(ivals.astype(float), dims=[KIND_DIM[kind]], uxgrid=gs, name="f").remap.inverse_distance_weighted(
+                            gd, remap_to=remap_to, coord_type=coord, power=power, k=k).values, dtype=float)
+                        rci = np.asarray(ux.UxDataArray(np.full(n_src, 7, dtype=np.int64), dims=[KIND_DIM[kind]], uxgrid=gs, name="ci").remap.inverse_distance_weighted(
+                            gd, remap_to=remap_to, coord_type=coord, power=power, k=k).values, dtype=float)
+                    except Exception:  # noqa: BLE001
+                        ri = None
+                    if ri is not None:
+                        ctx.cases += 2
+                        if rci.shape != (n_dst,) or not np.allclose(rci, 7.0, rtol=1e-12, atol=1e-12):
+                            ctx.fail("idw_constant_reproduced:integer_data", "inverse_distance_weighted", scen, coord, "a constant integer field is not "
+                                     "reproduced", dict(inp, dtype="int64"), rci.ravel()[:6].tolist(), 7.0)
+                        elif ri.shape != rf.shape or not np.allclose(ri, rf, rtol=1e-12, atol=1e-12):
+                            ctx.fail("idw_integer_data_same_as_float", "inverse_distance_weighted", scen, coord, "an integer-valued variable is remapped "
+                                     "to other numbers than the same values stored as float", dict(inp, dtype="int64"), ri.ravel()[:6].tolist(), rf.ravel()[:6].tolist())
                     if W.shape != (n_src, n_dst):
                         continue
                     ctx.cases += 3
